@@ -7,6 +7,10 @@ import sys
 from pathlib import Path
 
 sys.path.insert(0, str(Path(__file__).resolve().parent))
+# ATTRS_REPO=<dir> points the whole check (imports and T1 extraction) at another checkout of attrs
+# (used to try changes on a scratch copy); default is /repo through /venv's editable install.
+if os.environ.get("ATTRS_REPO"):
+    sys.path.insert(0, os.path.join(os.environ["ATTRS_REPO"], "src"))
 
 import leantools  # noqa: E402
 import runner  # noqa: E402
